@@ -24,6 +24,7 @@ import json
 import math
 import os
 import re
+import time
 import warnings
 
 import numpy as np
@@ -68,6 +69,16 @@ def snap(x):
         return ('arr', str(x.dtype), x.shape, x.tobytes())
     if isinstance(x, (list, tuple)):
         return ('seq', type(x).__name__, [snap(v) for v in x])
+    if isinstance(x, (set, frozenset)):
+        return ('set', sorted(repr(snap(v)) for v in x))
+    if isinstance(x, dict):
+        return ('dict', sorted((repr(k), repr(snap(v))) for k, v in x.items()))
+    if type(x).__module__.startswith('networkx'):
+        return ('graph', sorted(map(repr, x.nodes)), sorted(map(repr, x.edges)))
+    if isinstance(x, (str, bytes, int, float, bool, type(None), np.generic)) or callable(x) and not hasattr(x, 'fit'):
+        return ('val', repr(x))
+    if hasattr(x, '__dict__'):          # a learner object of the user: parameters and fitted attributes, nested
+        return ('obj', type(x).__name__, sorted((k, repr(snap(v))) for k, v in vars(x).items()))
     return ('val', repr(x))
 
 
@@ -81,7 +92,14 @@ class Watch:
         self.items.append((name, obj, snap(obj)))
 
     def changed(self):
-        return [name for name, obj, s in self.items if snap(obj) != s]
+        """names of the objects that differ from their snapshot; each change is reported once (re-baselined)"""
+        out = []
+        for j, (name, obj, s) in enumerate(self.items):
+            now = snap(obj)
+            if now != s:
+                out.append(name)
+                self.items[j] = (name, obj, now)
+        return out
 
 
 # ------------------------------------------------------------------------------------------ canonical values
@@ -112,6 +130,10 @@ def canon(v):
         return np.asarray(v, dtype=float)
     if isinstance(v, (list, tuple)):
         return [canon(x) for x in v]
+    if isinstance(v, (set, frozenset)):
+        return sorted(repr(canon(x)) for x in v)
+    if type(v).__module__.startswith('networkx'):
+        return [sorted(map(repr, v.nodes)), sorted(map(repr, v.edges))]
     if isinstance(v, matplotlib.axes.Axes):
         return [np.asarray(l.get_xydata(), dtype=float) for l in v.lines]
     return repr(type(v))
@@ -236,6 +258,18 @@ def gen_long(rng, nid, T=4):
     return df.sample(frac=1.0, random_state=int(rng.integers(0, 2 ** 31))).reset_index(drop=True)   # shuffled rows
 
 
+def gen_flat(rng, nid, T=5):
+    """one row per person (IPCW flat_df=True): id, follow-up time t, event d, baseline covariates; rows unsorted"""
+    L1 = rng.binomial(1, 0.5, nid)
+    L2 = np.round(rng.normal(size=nid), 3)
+    A = rng.binomial(1, expit(-0.2 + 0.6 * L1 - 0.3 * L2))
+    t = np.round(rng.uniform(0.6, T, nid), 2)
+    t[rng.uniform(size=nid) < 0.3] = float(T)
+    d = rng.binomial(1, expit(-0.8 + 0.6 * A + 0.4 * L1))
+    df = pd.DataFrame({'id': np.arange(nid) + 100, 't': t, 'd': d, 'A': A, 'L1': L1, 'L2': L2})
+    return df.sample(frac=1.0, random_state=int(rng.integers(0, 2 ** 31))).reset_index(drop=True)
+
+
 def gen_wide(rng, n):
     L1 = rng.binomial(1, 0.5, n)
     A1 = rng.binomial(1, expit(-0.2 + 0.5 * L1))
@@ -263,13 +297,43 @@ def gen_ipmw(rng, n, kind):
     return pd.DataFrame({'X': X, 'Z': Z, 'L1': L1, 'L2': L2})
 
 
-def custom(kind):
-    from sklearn.linear_model import LinearRegression, LogisticRegression
+def new_learner(kind):
+    """learner objects of the user.  `*_ws` keep state between fits (scikit-learn warm_start=True with a tiny iteration
+    budget: a second fit continues from the first), `pipe_ws` keeps it in a nested object."""
+    from sklearn.linear_model import LinearRegression, LogisticRegression, SGDRegressor
+    from sklearn.pipeline import Pipeline
+    from sklearn.preprocessing import StandardScaler
+    kind = kind.split(':')[0]
     if kind == 'logit':
         return LogisticRegression(C=1e4, tol=1e-10, max_iter=2000)
+    if kind == 'logit_ws':
+        return LogisticRegression(warm_start=True, max_iter=2)
+    if kind == 'pipe_ws':
+        return Pipeline([('sc', StandardScaler()), ('lr', LogisticRegression(warm_start=True, max_iter=2))])
     if kind == 'linear':
         return LinearRegression()
-    return None
+    if kind == 'sgd_ws':
+        return SGDRegressor(warm_start=True, max_iter=2, tol=None, random_state=0, eta0=0.001)
+    raise KeyError(kind)
+
+
+BIN_LEARNERS = ['logit', 'logit_ws', 'pipe_ws']
+CONT_LEARNERS = ['linear', 'sgd_ws']
+LEARNERS = {}       # the user's learner objects of the current data set: ONE instance per name, handed to every call of
+                    # every object (history object and fresh objects); zEpid must work on copies
+
+
+def custom(kind):
+    if kind is None:
+        return None
+    if kind not in LEARNERS:
+        LEARNERS[kind] = new_learner(kind)
+        if WATCH[0] is not None:
+            WATCH[0].add('learner ' + kind, LEARNERS[kind])
+    return LEARNERS[kind]
+
+
+WATCH = [None]      # the monitor of the current data set
 
 
 def pick(rng, xs):
@@ -278,6 +342,9 @@ def pick(rng, xs):
 
 # ------------------------------------------------------------------------------------------ class specs
 ARG_MUTATIONS = []      # arrays passed as arguments that a call changed (filled by the call wrappers)
+
+
+USER_OBJECTS = {}   # other objects of the user handed to calls (arrays, graphs), watched like the DataFrame
 
 
 class M:
@@ -292,10 +359,15 @@ def noargs(rng, cell):
 
 
 class Spec:
-    def __init__(self, name, cells, data, make, methods, obs, fit_req, lean_name=None, taints=None,
-                 feature=None):
+    def __init__(self, name, cells, data, make, methods, obs, fit_req, lean_name='', taints=None,
+                 feature=None, in_force=None, glm=True, stored=('df', 'gf', 'sample', 'target')):
         self.name = name
-        self.lean_name = lean_name or name
+        self.lean_name = name if lean_name == '' else lean_name      # None: no Lean table, gate D only
+        self.in_force = in_force      # additive classes: which accepted mutator calls are in force (default: last per method)
+        self.glm = glm                # the data set is a frame on which the reference GLM of gate H can be fitted
+        self.stored = stored          # attributes holding the object's private copy of the caller's frame
+        self.known = None             # (ops involved) -> signature of a recorded finding or None
+        self.quick_cells = None       # cap on the number of cells in the quick tier (expensive classes)
         self.cells = cells            # list of dicts (configuration cells)
         self.data = data              # (rng, cell, n) -> DataFrame
         self.make = make              # (df, cell) -> object
@@ -408,16 +480,17 @@ def mk_specs():
 
     # ---------------------------------------------------------------- AIPTW / TMLE
     def g_exp(rng, cell):
-        cm = 'logit' if (cell.get('custom') and rng.uniform() < 0.4) else None
+        cm = pick(rng, BIN_LEARNERS) if (cell.get('custom') and rng.uniform() < 0.4) else None
         return {'model': pick(rng, COV), 'bound': g_bound(rng), 'custom_model': cm, 'print_results': False}, cm is not None
 
     def g_miss(rng, cell):
-        cm = 'logit' if (cell.get('custom') and rng.uniform() < 0.4) else None
+        cm = pick(rng, BIN_LEARNERS) if (cell.get('custom') and rng.uniform() < 0.4) else None
         return {'model': 'A + ' + pick(rng, COV), 'bound': g_bound(rng), 'custom_model': cm,
                 'print_results': False}, cm is not None
 
     def g_out_a(rng, cell):
-        cm = ('logit' if cell['ybin'] else 'linear') if (cell.get('custom') and rng.uniform() < 0.4) else None
+        cm = pick(rng, BIN_LEARNERS if cell['ybin'] else CONT_LEARNERS) \
+            if (cell.get('custom') and rng.uniform() < 0.4) else None
         a = {'model': 'A + ' + pick(rng, COV), 'custom_model': cm, 'print_results': False}
         if not cell['ybin']:
             a['continuous_distribution'] = pick(rng, ['gaussian', 'poisson'])
@@ -432,7 +505,8 @@ def mk_specs():
     def with_custom(name):
         def call(o, a):
             a = dict(a)
-            a['custom_model'] = custom(a.get('custom_model'))
+            if 'custom_model' in a:
+                a['custom_model'] = custom(a.get('custom_model'))
             return getattr(o, name)(**a)
         return call
 
@@ -470,10 +544,15 @@ def mk_specs():
     # ---------------------------------------------------------------- StochasticTMLE
     def g_sexp(rng, cell):
         b = g_bound(rng)
-        return {'model': pick(rng, COV), 'bound': b}, bool(b)
+        a = {'model': pick(rng, COV), 'bound': b}
+        if cell.get('custom') and rng.uniform() < 0.4:
+            a['custom_model'] = 'logit:g'          # stateless learners, one instance per nuisance model
+        return a, bool(b)
 
     def g_sout(rng, cell):
         a = {'model': 'A + ' + pick(rng, COV)}
+        if cell.get('custom') and rng.uniform() < 0.4:
+            a['custom_model'] = 'logit:q' if cell['ybin'] else 'linear:q'
         if not cell['ybin']:
             a['continuous_distribution'] = pick(rng, ['gaussian', 'poisson'])
             if rng.uniform() < 0.3:
@@ -482,15 +561,15 @@ def mk_specs():
 
     def g_sfit(rng, cell):
         a = g_p(rng, cell)
-        a['samples'] = int(pick(rng, [5, 12]))
+        a['samples'] = int(pick(rng, [3, 6]))
         a['seed'] = int(rng.integers(1, 10 ** 6))
         return a, False
 
     S['StochasticTMLE'] = Spec(
-        'StochasticTMLE', product(ybin=[True, False], miss=[False, True], alpha=[0.05]),
+        'StochasticTMLE', product(ybin=[True, False], miss=[False, True], alpha=[0.05], custom=[False, True]),
         cross, lambda df, c: StochasticTMLE(df, exposure='A', outcome='Y', alpha=c['alpha']),
-        [M(0, 'exposure_model', 'spec', g_sexp, kw('exposure_model')),
-         M(1, 'outcome_model', 'spec', g_sout, kw('outcome_model')),
+        [M(0, 'exposure_model', 'spec', g_sexp, with_custom('exposure_model')),
+         M(1, 'outcome_model', 'spec', g_sout, with_custom('outcome_model')),
          M(2, 'fit', 'fit', g_sfit, kw('fit')),
          M(3, 'summary', 'res', noargs, kw('summary')),
          M(4, 'run_diagnostics', 'res', noargs, kw('run_diagnostics'))],
@@ -509,9 +588,15 @@ def mk_specs():
         else:
             a = {'p': [float(pick(rng, [0.2, 0.6])), float(pick(rng, [0.5, 0.75]))],
                  'conditional': ["g['L1']==1", "g['L1']==0"]}
-        a.update(samples=int(pick(rng, [4, 9])), seed=int(rng.integers(1, 10 ** 6)),
+        a.update(samples=int(pick(rng, [3, 5])), seed=int(rng.integers(1, 10 ** 6)),
                  predict_missing=bool(rng.uniform() < 0.7))
         return a, False
+
+    def stmle_known(ops_involved):
+        if any(o['args'].get('custom_model') for o in ops_involved):
+            return {'class': 'StochasticTMLE', 'feature': 'custom_model_fitted_in_place'}
+        return None
+    S['StochasticTMLE'].known = stmle_known
 
     S['TimeFixedGFormula'] = Spec(
         'TimeFixedGFormula', product(otype=['binary', 'normal', 'poisson'], miss=[False, True], weights=[None, 'W'],
@@ -643,14 +728,16 @@ def mk_specs():
                             lambda rng, c, n: gen_ipmw(rng, n, 'uniform'), mk_ipmw, ipmw_methods, ['Weight'],
                             {'fit': ['regression_models']}, lean_name='IPMWuniform')
 
+    def g_ipcw(r, c):
+        t = 't_enter' if c['flat'] else 'enter'
+        return {'model_denominator': pick(r, [t + ' + A + L1', t + ' + A + L1 + L2', t + ' + L2']),
+                'model_numerator': pick(r, [t, t + ' + A', '1']), 'print_results': False}, False
+
     S['IPCW'] = Spec(
-        'IPCW', product(flat=[False]),
-        lambda rng, c, n: gen_long(rng, max(60, n // 3)),
-        lambda df, c: IPCW(df, idvar='id', time='t', event='d'),
-        [M(0, 'regression_models', 'spec',
-           lambda r, c: ({'model_denominator': pick(r, ['enter + A + L1', 'enter + A + L1 + L2', 'enter + L2']),
-                          'model_numerator': pick(r, ['enter', 'enter + A', '1']), 'print_results': False}, False),
-           kw('regression_models')),
+        'IPCW', product(flat=[False, True]),
+        lambda rng, c, n: gen_flat(rng, max(60, n // 2)) if c['flat'] else gen_long(rng, max(60, n // 3)),
+        lambda df, c: IPCW(df, idvar='id', time='t', event='d', flat_df=c['flat']),
+        [M(0, 'regression_models', 'spec', g_ipcw, kw('regression_models')),
          M(1, 'fit', 'fit', noargs, kw('fit'))],
         ['Weight'], {'fit': ['regression_models']})
 
@@ -695,7 +782,161 @@ def mk_specs():
            lambda r, c: ({'treatments': pick(r, [[1, 1], [0, 0], [1, 0], [0, 1]]), 'as_array': bool(r.uniform() < 0.5)},
                          False), kw('fit'))],
         ['marginal_outcome'], {'fit': ['outcome_model']})
+    # ================================================================ classes without a Lean table (gate D only)
+    import zepid
+    from zepid.causal.causalgraph import DirectedAcyclicGraph
+    from zepid.superlearner import SuperLearner
+    from zepid.causal.doublyrobust import (SingleCrossfitAIPTW, DoubleCrossfitAIPTW, SingleCrossfitTMLE,
+                                           DoubleCrossfitTMLE)
+
+    # ---------------------------------------------------------------- association measures (zepid.base)
+    def gen_measure(rng, c, n):
+        df = gen_cross(rng, n, ybin=True, miss=True)
+        df['A2'] = rng.binomial(1, 0.45, n).astype(float)
+        df['A'] = df['A'].astype(float)
+        df.loc[rng.uniform(size=n) < 0.12, 'A'] = np.nan          # each exposure column has its own missing rows
+        df.loc[rng.uniform(size=n) < 0.12, 'A2'] = np.nan
+        df['t'] = np.round(rng.uniform(0.5, 6, n), 2)
+        return df
+
+    def call_mfit(o, a):
+        a = dict(a)
+        if not a.pop('rate'):
+            a.pop('time')
+        return o.fit(USER_DF[0], **a)
+
+    S['Measure'] = Spec(
+        'Measure', product(cls=['RiskDifference', 'RiskRatio', 'OddsRatio', 'NNT', 'IncidenceRateRatio',
+                                'IncidenceRateDifference']),
+        gen_measure, lambda df, c: getattr(zepid, c['cls'])(),
+        [M(0, 'fit', 'fit', lambda r, c: ({'exposure': pick(r, ['A', 'A2']), 'outcome': 'Y', 'time': 't',
+                                           'rate': c['cls'].startswith('Incidence')}, False), call_mfit, once=True),
+         M(1, 'summary', 'res', lambda r, c: ({'decimal': int(pick(r, [1, 3]))}, False), kw('summary'))],
+        ['results', 'risks', 'incidence_rate', '_missing_e', '_missing_d', '_missing_ed', 'n'], {'fit': []},
+        lean_name=None)
+
+    # ---------------------------------------------------------------- DirectedAcyclicGraph (additive mutators)
+    ORDER = ['W', 'V', 'X', 'M', 'Z', 'Y']          # arrows only go forward in this order: always acyclic
+
+    def g_arrow(r, c):
+        i, j = sorted(r.choice(len(ORDER), 2, replace=False).tolist())
+        return {'source': ORDER[i], 'endpoint': ORDER[j]}, False
+
+    def g_arrows(r, c):
+        prs = []
+        for _ in range(int(r.integers(1, 4))):
+            i, j = sorted(r.choice(len(ORDER), 2, replace=False).tolist())
+            prs.append([ORDER[i], ORDER[j]])
+        return {'pairs': prs}, False
+
+    def g_nx(r, c):
+        prs = [['X', 'Y']]
+        for _ in range(int(r.integers(2, 6))):
+            i, j = sorted(r.choice(len(ORDER), 2, replace=False).tolist())
+            prs.append([ORDER[i], ORDER[j]])
+        return {'edges': prs}, False
+
+    def call_nx(o, a):
+        import networkx as nx
+        key = 'graph ' + json.dumps(a['edges'])
+        if key not in USER_OBJECTS:
+            g = nx.DiGraph()
+            g.add_edges_from([tuple(e) for e in a['edges']])
+            USER_OBJECTS[key] = g
+            if WATCH[0] is not None:
+                WATCH[0].add(key, g)
+        return o.add_from_networkx(USER_OBJECTS[key])
+
+    def dag_in_force(rs):
+        """add_from_networkx replaces the graph, add_arrow(s) add to it"""
+        out = []
+        for r in rs:
+            if r['name'] == 'add_from_networkx':
+                out = []
+            out.append(r['pos'])
+        return out
+
+    S['DirectedAcyclicGraph'] = Spec(
+        'DirectedAcyclicGraph', product(x=['X']), lambda rng, c, n: pd.DataFrame({'unused': [0.0, 1.0]}),
+        lambda df, c: DirectedAcyclicGraph(exposure='X', outcome='Y'),
+        [M(0, 'add_arrow', 'spec', g_arrow, kw('add_arrow')),
+         M(1, 'add_arrows', 'spec', g_arrows, lambda o, a: o.add_arrows(pairs=[tuple(p) for p in a['pairs']])),
+         M(2, 'add_from_networkx', 'spec', g_nx, call_nx),
+         M(3, 'calculate_adjustment_sets', 'fit', noargs, kw('calculate_adjustment_sets')),
+         M(4, 'assess_misdirections', 'read',
+           lambda r, c: ({'chosen_adjustment_set': sorted(r.choice(['W', 'V', 'Z'], int(r.integers(0, 3)),
+                                                                 replace=False).tolist())}, False),
+           lambda o, a: o.assess_misdirections(chosen_adjustment_set=set(a['chosen_adjustment_set'])))],
+        ['adjustment_sets', 'minimal_adjustment_sets', 'dag'], {'calculate_adjustment_sets': []},
+        lean_name=None, in_force=dag_in_force, glm=False, stored=())
+
+    # ---------------------------------------------------------------- SuperLearner (candidates are the user's objects)
+    def mk_sl(df, c):
+        cands = [custom(k) for k in c['cands']]
+        return SuperLearner(estimators=cands, estimator_labels=list(c['cands']), folds=int(c['folds']),
+                            loss_function=c['loss'], discrete=c['discrete'])
+
+    def xy(which, target):
+        key = 'array %s %s' % (which, target)
+        if key not in USER_OBJECTS:
+            d = USER_DF[0] if which == 'a' else USER_DF[0].iloc[::2]
+            USER_OBJECTS[key] = np.asarray(d[['A', 'L1', 'L2', 'L3']], dtype=float) if target == 'X' else \
+                np.asarray(d['Y'], dtype=float)
+            if WATCH[0] is not None:
+                WATCH[0].add(key, USER_OBJECTS[key])
+        return USER_OBJECTS[key]
+
+    S['SuperLearner'] = Spec(
+        'SuperLearner', product(cands=[['logit_ws', 'pipe_ws', 'linear']], folds=[3], loss=['nloglik', 'L2'],
+                                discrete=[False, True]),
+        lambda rng, c, n: gen_cross(rng, n, ybin=True, miss=False),
+        mk_sl,
+        [M(0, 'fit', 'fit', lambda r, c: ({'data': pick(r, ['a', 'b'])}, False),
+           lambda o, a: o.fit(xy(a['data'], 'X'), xy(a['data'], 'y'))),
+         M(1, 'predict', 'res', lambda r, c: ({'data': pick(r, ['a', 'b'])}, False),
+           lambda o, a: o.predict(xy(a['data'], 'X'))),
+         M(2, 'summary', 'res', noargs, kw('summary'))],
+        ['coefficients', 'est_performance'], {'fit': []}, lean_name=None, stored=())
+
+    # ---------------------------------------------------------------- cross-fit estimators
+    def g_cexp(r, c):
+        return {'covariates': pick(r, ['L1 + L2', 'L1 + L2 + L3', 'L2 + L3']),
+                'estimator': pick(r, ['logit_ws', 'pipe_ws']), 'bound': pick(r, [False, False, 0.2])}, False
+
+    def g_cout(r, c):
+        return {'covariates': 'A + ' + pick(r, ['L1 + L2', 'L1 + L2 + L3']),
+                'estimator': pick(r, ['logit_ws', 'pipe_ws'] if c['ybin'] else CONT_LEARNERS)}, False
+
+    def with_est(name):
+        def call(o, a):
+            a = dict(a)
+            a['estimator'] = custom(a['estimator'])
+            return getattr(o, name)(**a)
+        return call
+
+    def g_cfit(r, c):
+        return {'n_splits': int(pick(r, [2, 3, 4, 5] if c['cls'].startswith('Single') else [3, 4, 5])),
+                'n_partitions': int(pick(r, [1, 2])), 'method': pick(r, ['median', 'mean']),
+                'random_state': int(pick(r, [0, 0, 7, 12345]))}, False
+
+    CF = {'SingleCrossfitAIPTW': SingleCrossfitAIPTW, 'DoubleCrossfitAIPTW': DoubleCrossfitAIPTW,
+          'SingleCrossfitTMLE': SingleCrossfitTMLE, 'DoubleCrossfitTMLE': DoubleCrossfitTMLE}
+    S['Crossfit'] = Spec(
+        'Crossfit', product(cls=sorted(CF), ybin=[True, False]),
+        lambda rng, c, n: gen_cross(rng, min(n, 200), ybin=c['ybin'], miss=False),
+        lambda df, c: CF[c['cls']](df, exposure='A', outcome='Y'),
+        [M(0, 'exposure_model', 'spec', g_cexp, with_est('exposure_model')),
+         M(1, 'outcome_model', 'spec', g_cout, with_est('outcome_model')),
+         M(2, 'fit', 'fit', g_cfit, kw('fit')),
+         M(3, 'summary', 'res', noargs, kw('summary'))],
+        ['risk_difference', 'risk_difference_se', 'risk_difference_ci', 'risk_difference_vector', 'risk_ratio',
+         'risk_ratio_se', 'risk_ratio_ci', 'risk_ratio_vector', 'ace', 'ace_se', 'ace_ci', 'ace_vector'],
+        {'fit': ['exposure_model', 'outcome_model']}, lean_name=None)
+    S['Crossfit'].quick_cells = 2
     return S
+
+
+USER_DF = [None]    # the caller's DataFrame of the current data set (methods that take it as an argument)
 
 
 # ------------------------------------------------------------------------------------------ running histories
@@ -720,8 +961,30 @@ def do_call(spec, obj, op):
     return out
 
 
-def observe(spec, obj):
-    return {a: canon(getattr(obj, a, '<absent>')) for a in spec.obs}
+def observe(spec, obj, user_cols=()):
+    """public result attributes + the user's columns of the object's private copy of the data (a call may add
+    working columns to its copy, it must not rewrite the data it was given)"""
+    out = {a: canon(getattr(obj, a, '<absent>')) for a in spec.obs}
+    for a in spec.stored:
+        fr = getattr(obj, a, None)
+        if isinstance(fr, pd.DataFrame):
+            cols = [c for c in user_cols if c in fr.columns]
+            out['stored data ' + a] = {str(c): canon(fr[c]) for c in cols}
+    return out
+
+
+def result_objects(spec, obj):
+    """the array-like objects a user can hold on to after a call (public result attributes)"""
+    out = []
+    for a in spec.obs:
+        v = getattr(obj, a, None)
+        if isinstance(v, (pd.DataFrame, pd.Series, np.ndarray)):
+            out.append((a, v))
+    return out
+
+
+def user_columns(df):
+    return list(df.columns) if isinstance(df, pd.DataFrame) else []
 
 
 def make(spec, df, cell):
@@ -737,6 +1000,7 @@ class Fresh:
     def __init__(self, spec, df, cell, watch, chk, tag):
         self.spec, self.df, self.cell, self.watch, self.chk, self.tag = spec, df, cell, watch, chk, tag
         self.cache = {}
+        self.calls = {}
         self.runs = 0
 
     def run_list(self, calls):
@@ -745,13 +1009,16 @@ class Fresh:
         if key not in self.cache:
             obj = make(self.spec, self.df, self.cell)
             res = [do_call(self.spec, obj, o) for o in calls]
-            self.cache[key] = (res, observe(self.spec, obj))
+            self.cache[key] = (res, observe(self.spec, obj, user_columns(self.df)))
+            self.calls[key] = list(calls)
             self.runs += 1
             bad = self.watch.changed() + ARG_MUTATIONS[:]
             del ARG_MUTATIONS[:]
             self.chk.count('nonmutation_checks')
             self.chk.d(not bad, 'caller data unchanged by a fresh object run (%s)' % self.spec.name,
-                       {'tag': self.tag, 'changed': bad, 'calls': [o['name'] for o in calls]})
+                       {'tag': self.tag, 'changed': bad, 'calls': [o['name'] for o in calls],
+                        'args': [o['args'] for o in calls]},
+                       signature=self.spec.known(calls) if self.spec.known else None)
         return self.cache[key]
 
 
@@ -760,6 +1027,8 @@ def py_normalize(spec, recs):
     specifications in force at the last successful fit + that fit, then the last successful call of each
     specification method (in the order the methods are documented)"""
     def last_specs(rs):
+        if spec.in_force is not None:
+            return spec.in_force([r for r in rs if r['kind'] == 'spec' and r['status'] == 'ok'])
         out = []
         for m in spec.methods:
             if m.kind == 'spec':
@@ -787,9 +1056,10 @@ def compare(spec, res_h, obs_h, res_f, obs_f, skip=(), state=True):
         if 'printed text' not in skip and not same_text(res_h[2], res_f[2]):
             diffs.append('printed text')
     if state:
-        for a in spec.obs:
-            if 'attribute ' + a not in skip and not same_val(obs_h[a], obs_f[a]):
-                diffs.append('attribute ' + a)
+        for a in obs_h:
+            nm = a if a.startswith('stored data') else 'attribute ' + a
+            if nm not in skip and not same_val(obs_h[a], obs_f.get(a)):
+                diffs.append(nm)
     return diffs
 
 
@@ -814,6 +1084,12 @@ def run_history(chk, drv, spec, cell, df, dseed, ops, tag, judge_every=True, nge
     """drive one object through `ops`; K / D after every call"""
     watch = Watch()
     watch.add('df', df)
+    USER_DF[0] = df
+    for k, v in LEARNERS.items():
+        watch.add('learner ' + k, v)
+    for k, v in USER_OBJECTS.items():
+        watch.add(k, v)
+    WATCH[0] = watch
     fresh = run_history.fresh.get(tag)
     if fresh is None:
         fresh = run_history.fresh[tag] = Fresh(spec, df, cell, watch, chk, tag)
@@ -823,7 +1099,7 @@ def run_history(chk, drv, spec, cell, df, dseed, ops, tag, judge_every=True, nge
             'ops': [{'mid': o['mid'], 'name': o['name'], 'args': o['args'], 'flag': o['flag']} for o in ops]}
     # ---- the model's prediction for the whole history
     model = None
-    if drv is not None:
+    if drv is not None and spec.lean_name is not None:
         rep, line = drv.ask('hist', cls=spec.lean_name, miss=int(bool(cell.get('miss', False))),
                             ops=','.join('%d:%d' % (o['mid'], int(o['flag'])) for o in ops))
         if rep['status'] == 'ok':
@@ -841,9 +1117,14 @@ def run_history(chk, drv, spec, cell, df, dseed, ops, tag, judge_every=True, nge
     chk.d(not bad, 'constructor leaves the caller\'s DataFrame unchanged (%s)' % spec.name,
           {'case': base, 'changed': bad})
     recs = []
+    ucols = user_columns(df)
+    held = []          # result objects the user may still hold from earlier calls: (description, object, snapshot)
+    born = [o for _, o in result_objects(spec, obj)]     # tables the object keeps from construction on are not results
+                                                         # *of a call*; they are compared with the fresh object instead
+    prev_obs = observe(spec, obj, ucols)
     for i, op in enumerate(ops):
         res = do_call(spec, obj, op)
-        obs = observe(spec, obj)
+        obs = observe(spec, obj, ucols)
         rec = {'pos': i, 'mid': op['mid'], 'name': op['name'], 'kind': op['kind'], 'flag': op['flag'],
                'status': res[0]}
         case = dict(base, step=i, call=op['name'], impl_status=res[0] if res[0] == 'ok' else res[1])
@@ -857,8 +1138,25 @@ def run_history(chk, drv, spec, cell, df, dseed, ops, tag, judge_every=True, nge
         bad = watch.changed() + ARG_MUTATIONS[:]
         del ARG_MUTATIONS[:]
         chk.count('nonmutation_checks')
+        ksig = spec.known(ops[:i + 1]) if spec.known else None
         chk.d(not bad, 'call leaves the caller\'s data unchanged (%s.%s)' % (spec.name, op['name']),
-              dict(case, changed=bad))
+              dict(case, changed=bad), signature=ksig)
+        # ---- D1b: result objects handed out by earlier calls are not rewritten behind the user's back
+        rewritten = [d for d, o, sn in held if snap(o) != sn]
+        chk.count('nonmutation_checks')
+        chk.d(not rewritten, 'call leaves the result objects of earlier calls unchanged (%s.%s)'
+              % (spec.name, op['name']), dict(case, changed=rewritten), signature=ksig)
+        held = [(d, o, sn) for d, o, sn in held if d not in rewritten]
+        for a, o in result_objects(spec, obj):
+            if not any(o is h[1] for h in held) and not any(o is b for b in born):
+                held.append(('%s after call %d (%s)' % (a, i, op['name']), o, snap(o)))
+        # ---- D1c: summaries / diagnostics / plots and calls that raise do not change the results or the stored data
+        if op['kind'] in ('read', 'res') or res[0] == 'err':
+            moved = [a for a in obs if not same_val(obs[a], prev_obs.get(a))]
+            chk.d(not moved, '%s.%s (%s) leaves results and stored data as they were'
+                  % (spec.name, op['name'], 'raised' if res[0] == 'err' else 'read-only'), dict(case, differs=moved),
+                  signature=ksig)
+        prev_obs = obs
         # ---- D2: results before the required specifications raise
         if op['kind'] == 'fit':
             need = spec.fit_req[op['name']]
@@ -885,6 +1183,8 @@ def run_history(chk, drv, spec, cell, df, dseed, ops, tag, judge_every=True, nge
             sig = None
             if feat and all(d in feat[1] or (d.startswith('status') and 'status' in feat[1]) for d in diffs):
                 sig = {'class': spec.name, 'feature': feat[0]}
+            if sig is None and diffs and ksig is not None:
+                sig = ksig
             chk.d(not diffs, '%s: result after the history = fresh object with the last specification'
                   % spec.name, dict(case, differs=diffs, fresh_calls=[o['name'] for o in calls],
                                     fresh_args=[o['args'] for o in calls]), signature=sig)
@@ -948,14 +1248,12 @@ def gen_ops(rng, spec, cell, length):
         u = rng.uniform()
         if i < nspec and rng.uniform() < 0.75:
             m = kinds['spec'][i] if rng.uniform() < 0.7 else pick(rng, kinds['spec'])
-        elif u < 0.40:
+        elif u < 0.40 and kinds['spec']:
             m = pick(rng, kinds['spec'])
         elif u < 0.70 or not kinds['read']:
             m = pick(rng, kinds['fit'])
         else:
             m = pick(rng, kinds['read'])
-        if m.once and any(o['mid'] == m.mid for o in ops):
-            m = pick(rng, kinds['fit'])
         ops.append(new_op(rng, m, cell))
     return ops
 
@@ -998,7 +1296,7 @@ def variant(rng, m, cell, rich):
     return (max if rich else min)(cands, key=richness)
 
 
-def refit_stream(rng, spec, cell):
+def refit_stream(rng, spec, cell, refits=4):
     """structured histories: (A) every model specified with all optional features (bound, custom model,
     unstabilised, numerator, ...), fitted, then re-specified plainly and refitted -- options of an earlier
     specification must not survive; (B) plain specification, fit, refit with other arguments, then each model
@@ -1016,7 +1314,20 @@ def refit_stream(rng, spec, cell):
     for m in specs:
         if not m.once:
             b += [variant(rng, m, cell, True), new_op(rng, pick(rng, fits), cell)] + [new_op(rng, x, cell) for x in res]
-    return [a, b]
+    # (C) one specification, then a run of refits with independently drawn arguments (plans, p, seeds, n_splits, t_max,
+    # solver ...), each judged against a fresh object: nothing of an earlier fit may reach a later one
+    c = [variant(rng, m, cell, False) for m in specs]
+
+    def size(op):      # numeric arguments of a fit call (n_splits, samples, t_max, p, maxiter ...), seeds excluded
+        return tuple(sorted((k, float(v)) for k, v in op['args'].items()
+                            if isinstance(v, (int, float)) and not isinstance(v, bool) and 'seed' not in k
+                            and k != 'random_state'))
+    cands = [new_op(rng, pick(rng, fits), cell) for _ in range(6)]
+    lo, hi = min(cands, key=size), max(cands, key=size)
+    run_ = [lo, hi, copy.deepcopy(lo)] + [new_op(rng, pick(rng, fits), cell) for _ in range(max(0, refits - 3))]
+    c += run_[:max(refits, 3)]          # small -> large -> small again, then random
+    c += [new_op(rng, m, cell) for m in res]
+    return [a, b, c]
 
 
 def h_gate(chk, df, formula, family='binomial'):
@@ -1092,16 +1403,191 @@ def function_sweep(chk, rng):
                                                                             'changed': w.changed()})
 
 
+def constructor_sweep(chk, rng):
+    """every constructor, with the options that make it touch its input (drop incomplete rows, sort, expand a flat
+    frame, rescale a continuous outcome, split sample / target), on frames with missing covariates and a permuted
+    index: the caller's frame must come back bit-identical"""
+    from zepid.causal.ipw import IPTW, StochasticIPTW, IPMW, IPCW
+    from zepid.causal.gformula import TimeFixedGFormula, SurvivalGFormula, MonteCarloGFormula, IterativeCondGFormula
+    from zepid.causal.doublyrobust import (AIPTW, TMLE, StochasticTMLE, SingleCrossfitAIPTW, DoubleCrossfitAIPTW,
+                                           SingleCrossfitTMLE, DoubleCrossfitTMLE)
+    from zepid.causal.snm import GEstimationSNM
+    from zepid.causal.generalize import IPSW, GTransportFormula, AIPSW
+    n = 120
+
+    def cross(ybin):
+        df = gen_cross(rng, n, ybin=ybin, miss=True, perm=True)
+        df['L2'] = df['L2'].where(rng.uniform(size=n) > 0.08)         # incomplete covariate rows are dropped
+        df['A2'] = 1 - df['A']
+        return df
+    cb, cc = cross(True), cross(False)
+    sel = gen_select(rng, n)
+    lng = gen_long(rng, 50)
+    flat = gen_flat(rng, 60)
+    wide = gen_wide(rng, n)
+    mono = gen_ipmw(rng, n, 'monotone')
+    todo = [('IPTW(standardize=exposed, weights)', cb, lambda d: IPTW(d, 'A', 'Y', weights='W', standardize='exposed')),
+            ('IPTW(continuous)', cc, lambda d: IPTW(d, 'A', 'Y')),
+            ('StochasticIPTW(weights)', cb, lambda d: StochasticIPTW(d, 'A', 'Y', weights='W')),
+            ('AIPTW(weights)', cc, lambda d: AIPTW(d, 'A', 'Y', weights='W', alpha=0.1)),
+            ('TMLE(continuous_bound)', cc, lambda d: TMLE(d, 'A', 'Y', continuous_bound=0.01)),
+            ('StochasticTMLE(continuous)', cc, lambda d: StochasticTMLE(d, 'A', 'Y', continuous_bound=0.01)),
+            ('GEstimationSNM(weights)', cc, lambda d: GEstimationSNM(d, 'A', 'Y', weights='W')),
+            ('TimeFixedGFormula(categorical)', cb,
+             lambda d: TimeFixedGFormula(d, exposure=['A', 'A2'], outcome='Y', exposure_type='categorical')),
+            ('TimeFixedGFormula(poisson, weights)', cc,
+             lambda d: TimeFixedGFormula(d, 'A', 'Y', outcome_type='poisson', weights='W', standardize='unexposed')),
+            ('SurvivalGFormula(weights)', lng,
+             lambda d: SurvivalGFormula(d, idvar='id', exposure='A', outcome='d', time='t', weights='W')),
+            ('MonteCarloGFormula(weights)', lng,
+             lambda d: MonteCarloGFormula(d, idvar='id', exposure='A', outcome='d', time_in='enter', time_out='t',
+                                          weights='W')),
+            ('IterativeCondGFormula', wide, lambda d: IterativeCondGFormula(d, ['A1', 'A2'], ['Y1', 'Y2'])),
+            ('IPCW(flat_df=True)', flat, lambda d: IPCW(d, idvar='id', time='t', event='d', flat_df=True)),
+            ('IPCW(flat_df=False)', lng, lambda d: IPCW(d, idvar='id', time='t', event='d')),
+            ('IPMW(list, stabilized)', mono, lambda d: IPMW(d, ['X', 'Z'], stabilized=True, monotone=True)),
+            ('IPMW(single)', mono, lambda d: IPMW(d, 'X')),
+            ('IPSW(transport, weights)', sel, lambda d: IPSW(d, 'A', 'Y', 'S', generalize=False, weights='W')),
+            ('GTransportFormula(transport)', sel, lambda d: GTransportFormula(d, 'A', 'Y', 'S', generalize=False)),
+            ('AIPSW(transport)', sel, lambda d: AIPSW(d, 'A', 'Y', 'S', generalize=False))]
+    for nm, cls in (('SingleCrossfitAIPTW', SingleCrossfitAIPTW), ('DoubleCrossfitAIPTW', DoubleCrossfitAIPTW),
+                    ('SingleCrossfitTMLE', SingleCrossfitTMLE), ('DoubleCrossfitTMLE', DoubleCrossfitTMLE)):
+        todo.append((nm + '(continuous)', cc, (lambda k: lambda d: k(d, 'A', 'Y'))(cls)))
+    for name, df, f in todo:
+        w = Watch()
+        w.add('df', df)
+        try:
+            with warnings.catch_warnings():
+                warnings.simplefilter('ignore')
+                with contextlib.redirect_stdout(io.StringIO()):
+                    f(df)
+            st = 'ok'
+        except Exception as e:
+            st = 'err %s: %s' % (type(e).__name__, str(e)[:80])
+        bad = w.changed()
+        chk.case({'constructor': name, 'status': st})
+        chk.count('constructor_sweep:' + st.split(' ')[0])
+        chk.count('nonmutation_checks')
+        chk.d(not bad, 'constructor %s leaves the caller\'s frame unchanged' % name,
+              {'constructor': name, 'status': st, 'changed': bad})
+
+
+D_ONLY = ['Measure', 'DirectedAcyclicGraph', 'SuperLearner', 'Crossfit']
+def new_context(df):
+    """a new data set: the user's frame, fresh learner objects, no other user objects yet"""
+    LEARNERS.clear()
+    USER_OBJECTS.clear()
+    USER_DF[0] = df
+    WATCH[0] = None
+
+
+def dedupe_once(spec, ops):
+    """methods that are not re-specifications when repeated (MonteCarloGFormula.add_covariate_model is documented as
+    additive; the association measures of zepid.base are fit-once objects, outside the property's second clause) are
+    called at most once per object"""
+    seen, out = set(), []
+    for o in ops:
+        if spec.methods[o['mid']].once:
+            if o['mid'] in seen:
+                continue
+            seen.add(o['mid'])
+        out.append(o)
+    return out
+
+
+def safe_history(chk, drv, spec, cell, df, dseed, ops, tag, **kw):
+    """anything the harness cannot digest is a failing input with a replay, never a tool failure"""
+    try:
+        return run_history(chk, drv, spec, cell, df, dseed, ops, tag, **kw)
+    except Exception as e:
+        import traceback
+        chk.d(False, '%s: harness could not evaluate the history (%s)' % (spec.name, type(e).__name__),
+              {'class': spec.name, 'lean_class': spec.lean_name, 'cell': cell, 'dseed': dseed, 'n': kw.get('ngen'),
+               'ops': [{'mid': o['mid'], 'name': o['name'], 'args': o['args'], 'flag': o['flag']} for o in ops],
+               'error': traceback.format_exc()[-1500:]})
+
+
+def recheck(chk, spec, key_name, cell, df, dseed, n, tag, rng):
+    """State must not leak *between objects* either.  (1) A fresh-object run made early on this data set is repeated
+    now, after many other objects of the class have been driven over the same frame and learners; (2) the same run is
+    repeated with the zEpid modules re-imported (class attributes, module-level caches and mutable default arguments
+    start empty again).  Both must reproduce the cached result."""
+    fresh = run_history.fresh.get(tag)
+    if fresh is None:
+        return
+    keys = [k for k in fresh.cache if k and any(r[0] == 'ok' for r in fresh.cache[k][0])]
+    if not keys:
+        return
+    keys.sort(key=lambda k: -len(k))
+    nk = 1 if spec.quick_cells else 4          # expensive classes: one run; others: the longest and three random ones
+    chosen = [keys[0]] + [keys[int(j)] for j in rng.permutation(len(keys))[:nk - 1] if int(j) != 0]
+    reimp = None
+    for kn, key in enumerate(chosen):
+        calls = fresh.calls[key]
+        old = fresh.cache[key]
+        for mode in ('again', 'reimported'):
+            sp = spec
+            if mode == 'reimported':
+                try:
+                    reimp = reimp or reimported_specs()
+                    sp = reimp[key_name]
+                except Exception:
+                    chk.count('recheck_reimport_unavailable')
+                    continue
+            try:
+                obj = make(sp, df, cell)
+                res = [do_call(sp, obj, o) for o in calls]
+                obs = observe(sp, obj, user_columns(df))
+                diffs = []
+                for j, (a, b) in enumerate(zip(res, old[0])):
+                    diffs += ['call %d %s: %s' % (j, calls[j]['name'], x) for x in compare(sp, a, {}, b, {}, state=False)]
+                diffs += compare(sp, ('err', '', ''), obs, ('err', '', ''), old[1], state=True)
+            except Exception as e:
+                diffs = ['harness error %s: %s' % (type(e).__name__, str(e)[:200])]
+            bad = fresh.watch.changed()
+            chk.count('recheck_' + mode)
+            chk.d(not diffs and not bad, '%s: a fresh object gives the same result %s' % (
+                spec.name, 'when the run is repeated later' if mode == 'again' else 'with zEpid re-imported'),
+                  {'class': spec.name, 'lean_class': spec.lean_name, 'cell': cell, 'dseed': dseed, 'n': n,
+                   'ops': [{'mid': o['mid'], 'name': o['name'], 'args': o['args'], 'flag': o['flag']} for o in calls],
+                   'differs': diffs, 'changed': bad, 'mode': mode},
+                  signature=spec.known(calls) if spec.known else None)
+
+
+def reimported_specs():
+    import importlib
+    import sys
+    # sub-modules first, so that a package re-imports the *new* classes of its reloaded sub-modules
+    for name in sorted((k for k in sys.modules if k == 'zepid' or k.startswith('zepid.')),
+                       key=lambda k: (-k.count('.'), k)):
+        mod = sys.modules.get(name)
+        if mod is not None:
+            try:
+                with warnings.catch_warnings():
+                    warnings.simplefilter('ignore')
+                    importlib.reload(mod)
+            except Exception:
+                pass
+    return mk_specs()
+
+
 QUICK_CLASSES = ['IPTW', 'StochasticIPTW', 'AIPTW', 'TMLE', 'StochasticTMLE', 'TimeFixedGFormula', 'SurvivalGFormula',
                  'GEstimationSNM', 'IPSW', 'GTransportFormula', 'AIPSW', 'IPMW', 'IPMWuniform', 'IPCW',
-                 'MonteCarloGFormula', 'IterativeCondGFormula']
+                 'MonteCarloGFormula', 'IterativeCondGFormula'] + D_ONLY
 
 
 def choose_cells(rng, spec, tier):
     """thorough: every cell; quick: a rotating subset that still hits every value of every option"""
     cells = spec.cells
+    if len(cells) == 1:
+        return [cells[0], cells[0]]     # at least two data sets per class and process (state shared between objects)
     if tier == 'thorough' or len(cells) <= 2:
         return list(cells)
+    if spec.quick_cells:
+        order = [cells[i] for i in rng.permutation(len(cells))]
+        first = order[0]
+        rest = [c for c in order[1:] if all(c[k] != first[k] for k in first if len({json.dumps(x[k]) for x in cells}) > 1)]
+        return [first] + (rest or order[1:])[:spec.quick_cells - 1]
     keys = list(cells[0])
     chosen, seen = [], set()
     order = [cells[i] for i in rng.permutation(len(cells))]
@@ -1125,36 +1611,55 @@ def run(chk, drv, rng, tier):
     if not (np.array_equal(a1[0], a2[0]) and np.array_equal(a1[1], a2[1])):
         chk.discard('np.random.seed does not reproduce the stream')
     function_sweep(chk, rng)
+    constructor_sweep(chk, rng)
     cells_done = []
     only = os.environ.get('C11_ONLY')
     for cname in QUICK_CLASSES:
         if only and cname not in only.split(','):
             continue
         spec = specs[cname]
+        t_cls = time.time()
         cells = choose_cells(rng, spec, tier)
         for ci, cell in enumerate(cells):
             dseed = int(rng.integers(0, 2 ** 31))
             n = int(rng.integers(150, 300))
             df = spec.data(np.random.default_rng(dseed), cell, n)
             tag = '%s/%d/%d' % (cname, ci, dseed)
+            new_context(df)
             hf = H_FORMULA.get(spec.name, 'A ~ L1 + L2')
-            if not h_gate(chk, df.dropna(subset=[c for c in ('A', 'Y') if c in df.columns and c in hf]), hf):
+            if spec.glm and not h_gate(chk, df.dropna(subset=[c for c in ('A', 'Y') if c in df.columns and c in hf]),
+                                       hf):
                 continue
+            w0 = Watch()
+            w0.add('df', df)
+            WATCH[0] = w0
             una = probe_unavailable(rng, spec, cell, df)
+            bad = w0.changed()
+            chk.count('nonmutation_checks')
+            chk.d(not bad, 'a fully specified and fitted %s object leaves the caller\'s data unchanged' % spec.name,
+                  {'class': spec.name, 'cell': cell, 'dseed': dseed, 'n': n, 'changed': bad},
+                  signature=spec.known([{'args': {'custom_model': 'any'}}])
+                  if (spec.known and bad and all(b.startswith('learner ') for b in bad)) else None)
             cells_done.append({'class': cname, 'cell': cell, 'n': len(df),
                                'unavailable_in_environment': {spec.methods[k].name: v for k, v in una.items()}})
             chk.h_checked += 1
-            if ci == 0 or not quick:
-                for ops in guard_stream(rng, spec, cell):
-                    run_history(chk, drv, spec, cell, df, dseed, ops, tag, ngen=n, unavailable=una)
-            for ops in refit_stream(rng, spec, cell):
-                run_history(chk, drv, spec, cell, df, dseed, ops, tag, ngen=n, unavailable=una)
-            nh = (2 if quick else 6)
-            for _ in range(nh):
+            hs = []
+            heavy = bool(spec.quick_cells)       # cross-fit estimators: every fit is (partitions x splits x 2) learner fits
+            if ci == 0 or (not quick and ci < 4):      # the guards do not depend on the cell beyond `miss`
+                hs += [(ops, True) for ops in guard_stream(rng, spec, cell) if not (heavy and len(ops) > 1)]
+            hs += [(ops, True) for ops in refit_stream(rng, spec, cell, refits=3 if (heavy and quick) else 4)
+                   ][(2 if (heavy and quick) else 0):]        # expensive classes, quick tier: the refit run only
+            for _ in range((0 if heavy else 1) if quick else (1 if heavy else 4)):
                 length = int(rng.integers(3, 9)) if quick else int(rng.integers(4, 15))
-                ops = gen_ops(rng, spec, cell, length)
-                run_history(chk, drv, spec, cell, df, dseed, ops, tag, judge_every=not quick, ngen=n, unavailable=una)
+                hs.append((gen_ops(rng, spec, cell, length), not quick))
+            for ops, every in hs:
+                ops = dedupe_once(spec, ops)
+                safe_history(chk, drv, spec, cell, df, dseed, ops, tag, judge_every=every, ngen=n, unavailable=una)
+            recheck(chk, spec, cname, cell, df, dseed, n, tag, rng)
             run_history.fresh.pop(tag, None)
+            chk.extra.setdefault('class_wall_s', {})[cname] = round(
+                chk.extra.get('class_wall_s', {}).get(cname, 0) + time.time() - t_cls, 1)
+            t_cls = time.time()
     chk.extra['nonmutation_checks'] = chk.dist.get('nonmutation_checks', 0)
     chk.extra['cells'] = cells_done
     chk.extra['classes'] = QUICK_CLASSES
@@ -1169,6 +1674,27 @@ def replay(rec):
     rc = 0
     for f in rec.get('failures', []) + rec.get('k_failures', []):
         case = f['case'].get('case', f['case']) if isinstance(f['case'], dict) else None
+        if case and ('constructor' in case or 'function' in case):
+            chk = Check('C11', 'replay', 0)
+            sweep = constructor_sweep if 'constructor' in case else function_sweep
+            sweep(chk, np.random.default_rng(0))
+            print('%s: %d direct failures on replay' % (sweep.__name__, len(chk.d_fail)))
+            for d in chk.d_fail[:5]:
+                print('   ', d['what'], d['case'].get('changed'))
+            rc = rc or (1 if chk.d_fail else 0)
+            continue
+        if case and 'ops' not in case and 'dseed' in case and case.get('class') in specs:
+            spec = specs[case['class']]
+            df = spec.data(np.random.default_rng(case['dseed']), case['cell'], case['n'])
+            new_context(df)
+            w = Watch()
+            w.add('df', df)
+            WATCH[0] = w
+            probe_unavailable(np.random.default_rng(0), spec, case['cell'], df)
+            bad = w.changed()
+            print('%s fully specified and fitted on the stored data set: changed %s' % (spec.name, bad))
+            rc = rc or (1 if bad else 0)
+            continue
         if not case or 'ops' not in case:
             print('not a history case:', f['what'])
             continue
@@ -1181,6 +1707,7 @@ def replay(rec):
             ops.append({'mid': o['mid'], 'name': o['name'], 'kind': m.kind, 'args': o['args'], 'flag': o['flag']})
         chk = Check('C11', 'replay', 0)
         run_history.fresh.clear()
+        new_context(df)
         run_history(chk, None, spec, case['cell'], df, case['dseed'], ops, 'replay', ngen=case['n'])
         print('%s %s: %d direct failures on replay' % (spec.name, [o['name'] for o in ops], len(chk.d_fail)))
         for d in chk.d_fail[:3]:
